@@ -154,13 +154,17 @@ Definition p_set (k : str) (v : value) (ps : props) : props :=
   if p_has k ps then ps else ps ++ [(k, v)].
 
 (* ---------------- yaml.rs: Props::update_from ---------------- *)
+(* a loop `for (k, v) in map { if let Some((name, value)) = g(k, v) { self.set(name, value) } }` *)
+Definition pfold (g : str * value -> option (str * value)) (m : mapping) (ps : props) : props :=
+  fold_left (fun ps e => match g e with Some kv => p_set (fst kv) (snd kv) ps | None => ps end) m ps.
+
 (* path.is_empty() branch *)
 Definition take_all (ps : props) (m : mapping) : props :=
-  fold_left (fun ps e => if contains_any (fst e) then ps
-                         else match without_any (snd e) with
-                              | Some v => p_set (fst e) v ps
-                              | None => ps
-                              end) m ps.
+  pfold (fun e => if contains_any (fst e) then None
+                  else match without_any (snd e) with
+                       | Some v => Some (fst e, v)
+                       | None => None
+                       end) m ps.
 
 (* `for i in 0..path.len()`: key grows by one segment per round, an exact hit
    recurses with the remaining path; returns the full joined path as well *)
@@ -179,12 +183,12 @@ Fixpoint prefix_loop (upd : props -> value -> list str -> props) (m : mapping)
 
 (* "extract direct prefixes, a prefix must end at a segment boundary" *)
 Definition direct (key : str) (ps : props) (m : mapping) : props :=
-  fold_left (fun ps e => if prefixb (key ++ [DOT]) (fst e)
-                         then match without_any (snd e) with
-                              | Some v => p_set (skipn (length key + 1) (fst e)) v ps
-                              | None => ps
-                              end
-                         else ps) m ps.
+  pfold (fun e => if prefixb (key ++ [DOT]) (fst e)
+                  then match without_any (snd e) with
+                       | Some v => Some (skipn (length key + 1) (fst e), v)
+                       | None => None
+                       end
+                  else None) m ps.
 
 Fixpoint update_from (fuel : nat) (ps : props) (base : value) (path : list str) : props :=
   match path with
